@@ -455,65 +455,74 @@ impl Drop for T24 {
 }
 common_traits!(T24);
 
-/// 200 bytes, align 8, registry; the padding carries a pattern so that partial copies show.
-#[repr(C)]
-pub struct L200 {
-    serial: u64,
-    id: u32,
-    gen: u16,
-    chk: u16,
-    pad: [u8; 184],
-}
-fn l200_pad(serial: u64) -> [u8; 184] {
-    let mut p = [0u8; 184];
+/// Large elements (200, 600 and 4200 bytes; align 8; registry): the padding carries a non-periodic pattern derived from
+/// the serial, so that partial or mixed copies show. 600 and 4200 bytes lie beyond any "small element" buffer a copy or
+/// swap routine might use (256 bytes, one page).
+fn big_pad<const P: usize>(serial: u64) -> [u8; P] {
+    let mut p = [0u8; P];
     for (i, b) in p.iter_mut().enumerate() {
-        *b = (serial as u8).wrapping_mul(31).wrapping_add(i as u8);
+        *b = (serial as u8).wrapping_mul(31).wrapping_add(i as u8).wrapping_add(((i >> 8) as u8).wrapping_mul(17));
     }
     p
 }
-impl Elem for L200 {
-    const NAME: &'static str = "L200";
-    const ID_SPACE: u32 = u32::MAX;
-    const HAS_GEN: bool = true;
-    const TRACKED: bool = true;
-    fn make(id: u32, gen: u16) -> Self {
-        let serial = reg_new(false);
-        L200 { serial, id, gen, chk: chk16(serial, id, gen), pad: l200_pad(serial) }
-    }
-    fn id(&self) -> u32 {
-        self.id
-    }
-    fn gen(&self) -> u16 {
-        self.gen
-    }
-    fn check(&self) -> bool {
-        let mut ok = tracked_check!(self, "L200");
-        if ok && self.pad != l200_pad(self.serial) {
-            crate::viol!("L200 body damaged (partial copy?): serial {:#x}", self.serial);
-            ok = false;
+macro_rules! big_elem {
+    ($T:ident, $P:expr, $name:expr) => {
+        #[repr(C)]
+        pub struct $T {
+            serial: u64,
+            id: u32,
+            gen: u16,
+            chk: u16,
+            pad: [u8; $P],
         }
-        ok
-    }
-}
-impl Clone for L200 {
-    fn clone(&self) -> Self {
-        fuse::tick(Class::Clone);
-        self.check();
-        let serial = reg_new(true);
-        L200 { serial, id: self.id, gen: self.gen, chk: chk16(serial, self.id, self.gen), pad: l200_pad(serial) }
-    }
-}
-impl Drop for L200 {
-    fn drop(&mut self) {
-        if self.chk == chk16(self.serial, self.id, self.gen) {
-            reg_drop(self.serial, "L200");
-        } else {
-            crate::viol!("drop of a garbage L200: serial {:#x} id {:#x}", self.serial, self.id);
+        impl Elem for $T {
+            const NAME: &'static str = $name;
+            const ID_SPACE: u32 = u32::MAX;
+            const HAS_GEN: bool = true;
+            const TRACKED: bool = true;
+            fn make(id: u32, gen: u16) -> Self {
+                let serial = reg_new(false);
+                $T { serial, id, gen, chk: chk16(serial, id, gen), pad: big_pad::<$P>(serial) }
+            }
+            fn id(&self) -> u32 {
+                self.id
+            }
+            fn gen(&self) -> u16 {
+                self.gen
+            }
+            fn check(&self) -> bool {
+                let mut ok = tracked_check!(self, $name);
+                if ok && self.pad != big_pad::<$P>(self.serial) {
+                    crate::viol!("{} body damaged (partial or mixed copy?): serial {:#x}", $name, self.serial);
+                    ok = false;
+                }
+                ok
+            }
         }
-        fuse::tick(Class::Drop);
-    }
+        impl Clone for $T {
+            fn clone(&self) -> Self {
+                fuse::tick(Class::Clone);
+                self.check();
+                let serial = reg_new(true);
+                $T { serial, id: self.id, gen: self.gen, chk: chk16(serial, self.id, self.gen), pad: big_pad::<$P>(serial) }
+            }
+        }
+        impl Drop for $T {
+            fn drop(&mut self) {
+                if self.chk == chk16(self.serial, self.id, self.gen) {
+                    reg_drop(self.serial, $name);
+                } else {
+                    crate::viol!("drop of a garbage {}: serial {:#x} id {:#x}", $name, self.serial, self.id);
+                }
+                fuse::tick(Class::Drop);
+            }
+        }
+        common_traits!($T);
+    };
 }
-common_traits!(L200);
+big_elem!(L200, 184, "L200");
+big_elem!(L600, 584, "L600");
+big_elem!(L4K, 4184, "L4K");
 
 /// 64 bytes, align 64 (> any group width): the `ctrl_align > WIDTH` branch.
 #[repr(C, align(64))]
